@@ -1,6 +1,7 @@
 import PMH.Props.C04
 import PMH.Proofs.Collision
 import PMH.Proofs.FYSwapSMH
+import PMH.Proofs.SMH2Coll
 /-!
 # C03 — SuperMinHash estimates the Jaccard index without bias (exact finite statement), and the
 single-item sketch is a permutation of integer parts with the drawn fractional parts
@@ -11,6 +12,8 @@ single-item sketch is a permutation of integer parts with the drawn fractional p
 * `smh_collision_count`: for any finite, relabelling-closed family Ω of tie-free assignments of
   generators to items, `#{ω | sketch_A[p] = sketch_B[p]} · |A ∪ B| = |A ∩ B| · #Ω` — the expected
   fraction of equal positions is exactly `J`, for every `m ≥ 1`, every pair of sets, every position.
+* `smh2_collision_count` (+ `_regs`, `smh2_position_law`): the same exact statement for the integer sketcher
+  SuperMinHash2 (observable: the winning item's hash, or the register pair).
 Not mechanised: the variance bound `MSE ≤ J(1-J)/m` (needs the joint law of two positions), and the
 idealisation "per-item generators behave as exchangeable random objects".
 -/
@@ -144,5 +147,56 @@ theorem smh_collision_count (t : SMHP.TOps K G) (hn : SMHP.Nice t) (large : K) (
       have := (C04.smh_run_spec t hn large m hl _ s0 (b r) h0 (hb r hr)).2
       rw [listPts_eq_pointsOf t hn m r B] at this; exact this)
   simpa [view] using this
+
+
+/-! ### SuperMinHash2 (integer sketch types): the same exact finite unbiasedness -/
+section SMH2
+open PMH.SMH2P PMH.SMH2Coll
+variable {G2 : Type} {ι2 : Type} [Fintype ι2] [DecidableEq ι2] [Inhabited ι2]
+
+/-- **C03 (d)** SuperMinHash2, observable `get_hsketch` (the hash of the winning item): for every
+relabelling-closed family Ω of tie-free generator assignments, every `m`, every position,
+`#{sketch_A[p] = sketch_B[p]} · |A ∪ B| = |A ∩ B| · #Ω` (distinct items have distinct hashes: `hh`). -/
+theorem smh2_collision_count (t : SMH2P.TOps G2) (hn : SMH2P.Nice t) (imax m : Nat) (h : ι2 → Nat)
+    (hh : Function.Injective h) (Ω : Finset (ι2 → G2)) (hΩ : CS.PermClosed Ω) (p : Nat) (hp : p < m)
+    (hinj : ∀ r ∈ Ω, Function.Injective (fun d => SMH2Coll.score t m (r d) p))
+    {A B : Finset ι2} (hA : A.Nonempty) (hB : B.Nonempty) (hAB : A ∪ B = Finset.univ)
+    (s0 : SMH2) (h0 : SMH2.new imax m = .ok s0) (a b : (ι2 → G2) → SMH2)
+    (ha : ∀ r ∈ Ω, SMH2P.run t s0 (itemsOf h r A) = .ok (a r))
+    (hb : ∀ r ∈ Ω, SMH2P.run t s0 (itemsOf h r B) = .ok (b r)) :
+    (Ω.filter (fun r => (a r).hsketch.getD p 0 = (b r).hsketch.getD p 0)).card * (A ∪ B).card
+      = (A ∩ B).card * Ω.card :=
+  SMH2Coll.smh2_collision_count t hn imax m h hh Ω hΩ p hp hinj hA hB hAB s0 h0 a b ha hb
+
+/-- the register form (no hypothesis on the hashes, empty sets allowed) -/
+theorem smh2_collision_count_regs (t : SMH2P.TOps G2) (hn : SMH2P.Nice t) (imax m : Nat) (h : ι2 → Nat)
+    (Ω : Finset (ι2 → G2)) (hΩ : CS.PermClosed Ω) (p : Nat) (hp : p < m)
+    (hinj : ∀ r ∈ Ω, Function.Injective (fun d => SMH2Coll.score t m (r d) p))
+    {A B : Finset ι2} (hAB : A ∪ B = Finset.univ)
+    (s0 : SMH2) (h0 : SMH2.new imax m = .ok s0) (a b : (ι2 → G2) → SMH2)
+    (ha : ∀ r ∈ Ω, SMH2P.run t s0 (itemsOf h r A) = .ok (a r))
+    (hb : ∀ r ∈ Ω, SMH2P.run t s0 (itemsOf h r B) = .ok (b r)) :
+    (Ω.filter (fun r => (a r).l.getD p 0 = (b r).l.getD p 0 ∧
+        (a r).values.getD p 0 = (b r).values.getD p 0)).card * (A ∪ B).card = (A ∩ B).card * Ω.card :=
+  SMH2Coll.smh2_collision_count_regs t hn imax m h Ω hΩ p hp hinj hAB s0 h0 a b ha hb
+
+/-- every item of a single set is shown at a position for exactly `#Ω / n` assignments -/
+theorem smh2_position_law (t : SMH2P.TOps G2) (hn : SMH2P.Nice t) (imax m : Nat) (h : ι2 → Nat)
+    (hh : Function.Injective h) (Ω : Finset (ι2 → G2)) (hΩ : CS.PermClosed Ω) (p : Nat) (hp : p < m)
+    (hinj : ∀ r ∈ Ω, Function.Injective (fun d => SMH2Coll.score t m (r d) p))
+    (s0 : SMH2) (h0 : SMH2.new imax m = .ok s0) (a : (ι2 → G2) → SMH2)
+    (ha : ∀ r ∈ Ω, SMH2P.run t s0 (itemsOf h r Finset.univ) = .ok (a r)) (d : ι2) :
+    (Ω.filter (fun r => (a r).hsketch.getD p 0 = h d)).card * Fintype.card ι2 = Ω.card :=
+  SMH2Coll.smh2_position_law t hn imax m h hh Ω hΩ p hp hinj s0 h0 a ha d
+
+/-- non-vacuity: a toy instance where all runs return, #Ω = 6 and exactly 2 assignments collide (J = 1/3) -/
+example (p : Nat) (hp : p < 4) :
+    ∃ (s0 : SMH2) (a b : (Fin 3 → Fin 3) → SMH2), SMH2.new 1000 4 = .ok s0 ∧
+      (∀ r, SMH2P.run (exOps 3) s0 (itemsOf (fun d => 10 + d.val) r {0, 1}) = .ok (a r)) ∧
+      (∀ r, SMH2P.run (exOps 3) s0 (itemsOf (fun d => 10 + d.val) r {1, 2}) = .ok (b r)) ∧
+      (CS.injAssignments (Fin 3) (Fin 3)).card = 6 ∧
+      ((CS.injAssignments (Fin 3) (Fin 3)).filter
+        (fun r => (a r).hsketch.getD p 0 = (b r).hsketch.getD p 0)).card = 2 := ex_collision_third p hp
+end SMH2
 
 end PMH.C03
